@@ -3,7 +3,8 @@
 get_mutation_config, get_mutation_configs, _get_configs of both spectra, FoldedSFSDistribution._unfold) and of
 StateSpace._get_partitions (phasegen/state_space.py), with the hand-written model functions as their Gallina reading:
 
-    _get_P + the part of get_mutation_config after its guards   = mutation_prob of model/MutationProb.v (restriction to the
+    _get_P + the part of get_mutation_config after its guards   = mutation_prob of model/MutationProb.v (the possibly shared state
+                 space is first re-pointed to the epoch of the distribution's own demography - fix b802829 -; restriction to the
                  non-absorbing states, P_total = inv(I - diag(1 / r_total) / theta @ S), p_total = (I - P_total) e,
                  P_i = P_total diag(R_i / r_total), the sum over the distinct orderings of the mutations of the products of the P_i,
                  alpha Q p_total); the guards themselves are the `guards` tie; theta == 0 returns 1 for the empty configuration, else 0
@@ -87,7 +88,8 @@ def translate(src_text):
     tree = ast.parse(open(os.path.join(base, 'distributions.py')).read())
     tree2 = ast.parse(open(os.path.join(base, 'state_space.py')).read())
     pin(tree, 'SFSDistribution', '_get_P',
-        ['non_absorbing = TreeHeightReward()._get(self.state_space).astype(bool)', 'e = self.state_space.e[non_absorbing]',
+        ['self.state_space.update_epoch(self.demography.get_epoch(0))',
+         'non_absorbing = TreeHeightReward()._get(self.state_space).astype(bool)', 'e = self.state_space.e[non_absorbing]',
          'R = np.array([self._get_sfs_reward(i)._get(self.state_space) for i in range(1, n + 1)])[:, non_absorbing]',
          'r_total = R.T @ np.ones(n)', 'S = self.state_space.S[non_absorbing, :][:, non_absorbing]', 'I = np.eye(S.shape[0])',
          'P_total = np.linalg.inv(I - np.diag(1 / r_total) / theta @ S)', 'p_total = (I - P_total) @ e',
